@@ -315,6 +315,9 @@ fn regexes() -> Vec<Re> {
 }
 
 pub fn run_unit(u: &TextUnit, cx: &ShardCtx) -> UnitResult {
+    if u.name.starts_with("text-graphemes") {
+        return run_graphemes_unit(u, cx);
+    }
     let alpha: Vec<char> = ALPHABET.chars().collect();
     let total = count_strings(alpha.len(), u.len);
     let cfgs = configs();
@@ -345,6 +348,195 @@ pub fn run_unit(u: &TextUnit, cx: &ShardCtx) -> UnitResult {
         cfgs.strs.len(),
         cfgs.bytes.len(),
         REGEXES.len()
+    );
+    r
+}
+
+// ---- text parsers on a Graphemes input (tokens are extended grapheme clusters) --------------------------------
+
+use chumsky::text::{Grapheme, Graphemes};
+use unicode_segmentation::UnicodeSegmentation;
+
+/// the canonical lifting of the character classes to clusters: a cluster is whitespace / an identifier
+/// continuation iff all its code points are; a digit iff it is one digit code point; a line terminator iff it is one of
+/// the eight documented ones (CR LF being ONE cluster); an identifier start iff its first code point is and the rest continue
+fn c_ws(c: &str) -> bool {
+    c.chars().all(char::is_whitespace)
+}
+fn c_iws(c: &str) -> bool {
+    c == " " || c == "\t"
+}
+fn c_nl(c: &str) -> bool {
+    ["\r\n", "\n", "\r", "\x0B", "\x0C", "\u{85}", "\u{2028}", "\u{2029}"].contains(&c)
+}
+fn c_digit(c: &str, r: u32) -> bool {
+    let mut it = c.chars();
+    matches!((it.next(), it.next()), (Some(d), None) if d.is_digit(r))
+}
+fn c_istart(c: &str) -> bool {
+    let mut it = c.chars();
+    let f = it.next().unwrap();
+    (unicode_ident::is_xid_start(f) || f == '_') && it.all(unicode_ident::is_xid_continue)
+}
+fn c_icont(c: &str) -> bool {
+    c.chars().all(unicode_ident::is_xid_continue)
+}
+fn c_ascii(c: &str) -> Option<u8> {
+    if c.len() == 1 && c.is_ascii() {
+        Some(c.as_bytes()[0])
+    } else {
+        None
+    }
+}
+fn take(cl: &[&str], f: impl Fn(&str) -> bool) -> usize {
+    cl.iter().take_while(|c| f(c)).count()
+}
+type GRefFn = Box<dyn Fn(&[&str]) -> Option<usize>>;
+type Gx<'a> = extra::Err<Rich<'a, &'a Grapheme>>;
+type GP<'a> = Boxed<'a, 'a, &'a Graphemes, (&'a str, &'a str, Option<&'a str>), Gx<'a>>;
+fn g_unit<'a, O: 'a>(p: impl Parser<'a, &'a Graphemes, O, Gx<'a>> + Clone + 'a) -> GP<'a> {
+    p.to_slice().then(any().repeated().to_slice()).map(|(m, r): (&Graphemes, &Graphemes)| (m.as_str(), r.as_str(), None)).boxed()
+}
+fn g_slice<'a>(p: impl Parser<'a, &'a Graphemes, &'a Graphemes, Gx<'a>> + Clone + 'a) -> GP<'a> {
+    p.map_with(|o: &Graphemes, e| (o.as_str(), { let m: &Graphemes = e.slice(); m.as_str() })).then(any().repeated().to_slice()).map(|((o, m), r): ((&str, &str), &Graphemes)| (m, r.as_str(), Some(o))).boxed()
+}
+fn one_grapheme(c: &'static str) -> &'static Grapheme {
+    Graphemes::new(c).iter().next().unwrap()
+}
+pub fn g_configs<'a>() -> Vec<(String, GP<'a>, GRefFn)> {
+    let mut v: Vec<(String, GP<'a>, GRefFn)> = vec![];
+    for r in [2u32, 10, 16] {
+        v.push((format!("int({r})"), g_slice(text::int(r)), Box::new(move |cl| match cl.first() {
+            Some(&"0") => Some(1),
+            Some(c) if c_digit(c, r) => Some(1 + take(&cl[1..], |c| c_digit(c, r))),
+            _ => None,
+        })));
+        v.push((format!("digits({r})"), g_unit(text::digits(r)), Box::new(move |cl| Some(take(cl, |c| c_digit(c, r))).filter(|n| *n >= 1))));
+    }
+    v.push(("unicode::ident".into(), g_slice(text::unicode::ident()), Box::new(|cl| match cl.first() {
+        Some(c) if c_istart(c) => Some(1 + take(&cl[1..], c_icont)),
+        _ => None,
+    })));
+    v.push(("ascii::ident".into(), g_slice(text::ascii::ident()), Box::new(|cl| match cl.first().and_then(|c| c_ascii(c)) {
+        Some(b) if b.is_ascii_alphabetic() || b == b'_' => Some(1 + take(&cl[1..], |c| c_ascii(c).is_some_and(|b| b.is_ascii_alphanumeric() || b == b'_'))),
+        _ => None,
+    })));
+    v.push(("whitespace".into(), g_unit(text::whitespace()), Box::new(|cl| Some(take(cl, c_ws)))));
+    v.push(("whitespace.at_least(1)".into(), g_unit(text::whitespace().at_least(1)), Box::new(|cl| Some(take(cl, c_ws)).filter(|n| *n >= 1))));
+    v.push(("inline_whitespace".into(), g_unit(text::inline_whitespace()), Box::new(|cl| Some(take(cl, c_iws)))));
+    v.push(("newline".into(), g_unit(text::newline()), Box::new(|cl| match cl.first() {
+        Some(c) if c_nl(c) => Some(1),
+        _ => None,
+    })));
+    v.push(("newline.repeated()".into(), g_unit(text::newline().repeated()), Box::new(|cl| Some(take(cl, c_nl)))));
+    v.push(("just(a).padded()".into(), g_unit(just(one_grapheme("a")).padded()), Box::new(|cl| {
+        let lead = take(cl, c_ws);
+        match cl.get(lead) {
+            Some(&"a") => Some(lead + 1 + take(&cl[lead + 1..], c_ws)),
+            _ => None,
+        }
+    })));
+    v
+}
+
+/// U+0301 combines with what precedes it (one cluster of two code points); CR LF is one cluster
+pub const G_ALPHABET: &str = "09af_ \t\r\n\x0B\u{85}\u{2028}\u{301}é\u{A0}٣";
+
+fn run_g<'a>(p: &GP<'a>, s: &'a str) -> Result<Option<usize>, String> {
+    catch_unwind(AssertUnwindSafe(|| {
+        let o = p.parse(Graphemes::new(s)).into_output();
+        let c = p.check(Graphemes::new(s)).has_output();
+        if c != o.is_some() {
+            return Err(format!("check() accepted={c}, parse() accepted={}", o.is_some()));
+        }
+        match o {
+            None => Ok(None),
+            Some((m, rest, inner)) => {
+                if m.as_ptr() != s.as_ptr() || rest.as_ptr() as usize != s.as_ptr() as usize + m.len() || m.len() + rest.len() != s.len() {
+                    return Err("matched slice / rest are not the corresponding sub-slices of the input".into());
+                }
+                if let Some(i) = inner {
+                    if i.as_ptr() != m.as_ptr() || i.len() != m.len() {
+                        return Err(format!("the parser's own output slice {:?} is not the matched slice {:?}", i, m));
+                    }
+                }
+                Ok(Some(m.len()))
+            }
+        }
+    }))
+    .unwrap_or_else(|e| Err(format!("panic: {}", cvh::e1::panic_msg(e))))
+}
+
+fn check_gstring(cs: &[char], cfgs: &[(String, GP<'static>, GRefFn)], r: &mut UnitResult, unit: &str, distinct: &mut HashSet<u64>) {
+    use std::hash::{Hash, Hasher};
+    let s: String = cs.iter().collect();
+    let leaked: &'static str = Box::leak(s.clone().into_boxed_str());
+    let cl: Vec<&str> = leaked.graphemes(true).collect();
+    if cl.len() < cs.len() {
+        *r.counters.entry("strings_with_a_multi_codepoint_cluster".into()).or_default() += 1;
+    }
+    for (name, p, rf) in cfgs {
+        let want = rf(&cl).map(|n| cl[..n].iter().map(|c| c.len()).sum::<usize>());
+        let got = run_g(p, leaked);
+        r.cases += 1;
+        r.validated += 1;
+        r.states += 1;
+        r.transitions += cl.len() as u64 + 1;
+        *r.counters.entry(if want.is_some() { "accepted_prefixes" } else { "rejections" }.into()).or_default() += 1;
+        let mut h = std::collections::hash_map::DefaultHasher::new();
+        (name, want, cs.len() <= 2).hash(&mut h);
+        if cs.len() <= 2 {
+            cs.hash(&mut h);
+        }
+        if distinct.len() < 100_000 {
+            distinct.insert(h.finish());
+        }
+        let bad = match &got {
+            Err(m) => Some(m.clone()),
+            Ok(g) if *g != want => Some(format!("matched {:?} bytes", g)),
+            _ => None,
+        };
+        if let Some(why) = bad {
+            r.mismatch_count += 1;
+            *r.counters.entry(format!("mismatch:{name}/&Graphemes")).or_default() += 1;
+            if r.mismatches.iter().filter(|m| m["parser"] == name.as_str()).count() < 2 && r.mismatches.len() < 30 {
+                r.mismatches.push(json!({
+                    "engine": "text", "unit": unit, "parser": name, "kind": "&Graphemes", "input": s,
+                    "categories": ["text_language"], "detail": format!("{name} on &Graphemes {:?} (clusters {:?}): {why}; the documented language matches {:?} bytes", s, cl, want), "explained_by": [],
+                }));
+            }
+        }
+    }
+    if r.samples.len() < 4 && cl.len() < cs.len() && cs.len() >= 3 {
+        r.samples.push(format!("{:?} = clusters {:?}", s, cl));
+    }
+    // SAFETY: leaked above, nothing borrowed from it survives
+    unsafe { drop(Box::from_raw(leaked as *const str as *mut str)) };
+}
+
+pub fn run_graphemes_unit(u: &TextUnit, cx: &ShardCtx) -> UnitResult {
+    let alpha: Vec<char> = G_ALPHABET.chars().collect();
+    let total = count_strings(alpha.len(), u.len);
+    let cfgs = g_configs();
+    let mut r = UnitResult { name: u.name.clone(), exhaustive: true, ..Default::default() };
+    let mut distinct = HashSet::new();
+    let mut idx = cx.shard;
+    let mut n = 0u64;
+    while idx < total {
+        if !cx.skip.contains(&idx) {
+            if n % 256 == 0 {
+                (cx.progress)(idx);
+            }
+            check_gstring(&nth_string(&alpha, idx), &cfgs, &mut r, &u.name, &mut distinct);
+            n += 1;
+        }
+        idx += cx.nshards;
+    }
+    r.counters.insert("strings".into(), n);
+    r.distinct_outcomes = distinct.len() as u64;
+    r.desc = format!(
+        "text on &Graphemes: all {} strings of length <= {} over the {}-character alphabet {:?} (combining marks and CR LF form multi-code-point clusters); {} parser configurations; oracle = the character classes lifted to clusters (unicode-segmentation, std, unicode-ident); matched slices are sub-slices of the input",
+        total, u.len, alpha.len(), G_ALPHABET, cfgs.len()
     );
     r
 }
@@ -461,11 +653,20 @@ pub fn run_totality(unit: &str, len: usize, cx: &ShardCtx) -> UnitResult {
 }
 
 pub fn units(tier: Tier) -> Vec<TextUnit> {
-    vec![TextUnit { name: "text-all-strings".into(), len: if tier == Tier::Quick { 4 } else { 5 } }]
+    vec![
+        TextUnit { name: "text-all-strings".into(), len: if tier == Tier::Quick { 4 } else { 5 } },
+        TextUnit { name: "text-graphemes".into(), len: if tier == Tier::Quick { 4 } else { 5 } },
+    ]
 }
 
 pub fn replay(v: &Value) -> Result<Option<String>, String> {
     let input: Vec<char> = v["input"].as_str().ok_or("no input")?.chars().collect();
+    if v["kind"].as_str() == Some("&Graphemes") {
+        let mut r = UnitResult::default();
+        let mut d = HashSet::new();
+        check_gstring(&input, &g_configs(), &mut r, "replay", &mut d);
+        return Ok(r.mismatches.iter().find(|m| m["parser"] == v["parser"]).or(r.mismatches.first()).map(|m| m["detail"].as_str().unwrap_or("").to_string()));
+    }
     let cfgs = configs();
     let res = regexes();
     let mut r = UnitResult::default();
